@@ -43,6 +43,20 @@ Proof.
   exact (values_unique _ l1 l2 v1 v2 UO (IL r1 l1 L1) (IL r2 l2 L2) T1 Same A1 A2 B1 B2 D1 D2).
 Qed.
 
+(* ---- the same for replicas of histories with bounded merges and re-opened logs ([owf],
+   Proofs/POpen.v): complete, duplicate free, sorted, and every entry after those of its predecessors
+   that the log holds (such a log may lack predecessors: it is causally open) *)
+From IpfsLog Require Import Proofs.POpen.
+Theorem C03_values_of_reopened_logs ops r l :
+  owf ops -> hist_bound ops < two63 -> nth_error (s_logs (run ops)) r = Some l -> order_total l ->
+  exists v, values l = Some v /\
+    NoDup (okeys v) /\
+    (forall k e, In (k, e) v <-> In (k, e) (l_entries l)) /\
+    StronglySorted (asc l) (oslice v) /\
+    (forall l1 e l2, oslice v = l1 ++ e :: l2 ->
+       forall n p, In n (e_next e) -> In (n, p) (l_entries l) -> In p l1).
+Proof. intros W Hlen L OT. exact (ovalues_linearise ops r l W L Hlen OT). Qed.
+
 From IpfsLog Require Import Model.ExampleHist Proofs.WfBool.
 Example C03_nonvacuous :
   wf ex_hist /\ hist_bound ex_hist < two63 /\
@@ -78,3 +92,4 @@ Print Assumptions C03_depends_only_on_entries.
 Print Assumptions C03_nonvacuous.
 Print Assumptions C03_ties_are_excluded.
 Print Assumptions C03_seeded_clocks_nonvacuous.
+Print Assumptions C03_values_of_reopened_logs.
